@@ -18,7 +18,10 @@ TReset == /\ Is("Reset")
           /\ res' = "none" /\ act' = "Init" /\ consec' = 0
           /\ Consume
 TAsk  == Is("Ask")  /\ Ask  /\ res' = TLog[l].res /\ Projected /\ Consume
-TRace == Is("Race") /\ Race(TLog[l].n) /\ TLog[l].admits = RaceAdmits(TLog[l].n) /\ Projected /\ Consume
+\* the burst is repeated from the same state; admits / admitsMin = largest / smallest number admitted in a round
+TRace == /\ Is("Race") /\ Race(TLog[l].n)
+         /\ TLog[l].admits = RaceAdmits(TLog[l].n) /\ TLog[l].admitsMin = RaceAdmits(TLog[l].n)
+         /\ Projected /\ Consume
 TFail == Is("Fail") /\ Fail /\ Projected /\ Consume
 TSucc == Is("Succ") /\ Succ /\ Projected /\ Consume
 TTick == Is("Tick") /\ Tick(TLog[l].d) /\ Consume
